@@ -123,7 +123,7 @@ def main(tier='quick'):
                 recipes.append({'kind': 'reset_after_op', 'req': req, 'conv': name, 'i': i})
                 n_fin += 1
                 # the peer stops receiving: the loss of the connection is discovered by the next local WRITE failing
-                nxt = [op for op in sc[i:] if op[0] in ('U', 'G')][:1]
+                nxt = [op for op in sc[i:] if op[0] in ('U', 'G', 'GF')][:1]
                 if nxt:
                     p = ulcorpus.play(sc[:i] + [('DEAF',)] + nxt + [('FIN',)], req)
                     finish(p)
@@ -186,7 +186,7 @@ def replay(doc):
         p = ulcorpus.play(sc[:rec['i']] + [('RESET',)], rec['req'])
         finish(p)
     elif rec['kind'] == 'deaf_after_op':
-        nxt = [op for op in sc[rec['i']:] if op[0] in ('U', 'G')][:1]
+        nxt = [op for op in sc[rec['i']:] if op[0] in ('U', 'G', 'GF')][:1]
         p = ulcorpus.play(sc[:rec['i']] + [('DEAF',)] + nxt + [('FIN',)], rec['req'])
         finish(p)
     elif rec['kind'] == 'fin_after_op':
